@@ -455,6 +455,13 @@ func isBlockingKind(k string) bool {
 // each time) until the key shows up or the attempts are used up.
 func replayUntil(bin string, p *Plan, key string) (*Record, error) {
 	attempts := 1
+	if strings.HasPrefix(key, "race:") {
+		// which accesses the detector still remembers when the partner access arrives
+		// depends on happens-before edges through the standard library's own sync.Pools
+		// (fmt, encoding/binary), which drop and migrate entries at random under -race:
+		// the same schedule does not always produce the same reports
+		attempts = 4
+	}
 	if inexact {
 		attempts = 6
 	}
@@ -1085,11 +1092,13 @@ func main() {
 			gen.Faults = nil
 			gen.Note = "replayed by regeneration from the run seed"
 			rr2, err2 := replayUntil(bin, gen, k)
-			if (err2 != nil || hasKey(rr2, k) == nil) && inexact {
-				// the tree is not replayable by construction: report what was observed
+			if (err2 != nil || hasKey(rr2, k) == nil) && (inexact || strings.HasPrefix(k, "race:")) {
+				// a race report is sound by itself (the detector has no false positives); on a
+				// tree that is nondeterministic by construction the same holds for a divergence
+				// seen in the main exploration: report what was observed
 				v := hasKey(best, k)
 				plan.Violation = v
-				plan.Note = "observed in the main exploration; not reproduced in 12 replay attempts because the library under test is nondeterministic under -race (sync.Pool / goroutines)"
+				plan.Note = "observed in the main exploration; not reproduced in the replay attempts (race reports depend on happens-before edges through std-lib pools that behave randomly under -race; or the library under test itself is nondeterministic: sync.Pool / goroutines)"
 				path := filepath.Join(outDir, "replays", "C19-"+sanitize(k)+".json")
 				os.MkdirAll(filepath.Dir(path), 0o755)
 				b, _ := json.MarshalIndent(&plan, "", " ")
